@@ -244,3 +244,26 @@ Proof.
   intros Cs Ct E. pose proof (json_string_roundtrip_clean s Cs) as A.
   rewrite E, (json_string_roundtrip_clean t Ct) in A. congruence.
 Qed.
+
+(* ---------- the executable instance: modelled json.Marshal and modelled SHA-256 ---------- *)
+From Oras Require Import Model.PackSha.
+
+(* the one hypothesis about the digest function holds for the modelled SHA-256, by computation *)
+Lemma digest_of_empty_json : digest_of empty_json = empty_json_digest.
+Proof. vm_compute. reflexivity. Qed.
+
+(* so every theorem of C19 applies to the fully executable model; e.g. the descriptor it returns *)
+Theorem executable_instance_consistent f tc fa s at_ o now s' d m :
+  pack json_manifest digest_of f tc fa s at_ o now = (s', Ok d m) ->
+  exists ann,
+    ensure_created (o_ann o) (created_key f) now = Some ann /\
+    m = requested_manifest digest_of f at_ o ann /\
+    d_dg d = digest_of (json_manifest m) /\
+    d_sz d = Z.of_nat (length (json_manifest m)) /\
+    d_mt d = kind_mt (m_kind m) /\ d_ann d = m_ann m /\
+    stored (t_key tc) (s_store s') d = true.
+Proof.
+  intro P. destruct (ok_consistent json_manifest digest_of digest_of_empty_json _ _ _ _ _ _ _ _ _ _ P)
+    as (ann & evs & EC & -> & -> & _ & _ & St & _).
+  exists ann. repeat split; auto.
+Qed.
